@@ -97,9 +97,9 @@ func main() {
 	}
 
 	// ---------------------------------------------------------------- case lists
-	nDet, nFree := 6000, 120
+	nDet, nFree := 10000, 200
 	if env.Thorough {
-		nDet, nFree = 12000, 400
+		nDet, nFree = 10000, 500
 	}
 	if v, err := strconv.Atoi(os.Getenv("C16_NDET")); err == nil { // experiments only
 		nDet = v
